@@ -580,6 +580,12 @@ static void run_history_ops(int hidx, int len)
         } else {
             live_t *L = &S[sl]; int n = L->s.n, k = L->c.k, tol = cfg_tol(&L->c);
             char *lst[80]; int cnt = 0; uint8_t *tmp[4] = {0}; int ntmp = 0;
+            void *misb[80]; int nmis = 0;
+            /* about half of the calls hand in some fragments at addresses that are not 16-byte aligned (data and parity),
+             * which makes the library work on private aligned copies that it has to release itself */
+#define MISALIGN_SOME() do { if (rng_below(&r, 2)) for (int i_ = 0; i_ < cnt; i_++) if (rng_below(&r, 3) == 0) { \
+                void *b_ = NULL; if (posix_memalign(&b_, 16, L->s.flen + 16)) abort(); int o_ = 1 + (int)rng_below(&r, 15); \
+                memcpy((char *)b_ + o_, lst[i_], L->s.flen); lst[i_] = (char *)b_ + o_; misb[nmis++] = b_; mon_count("history_fragments_misaligned", 1); } } while (0)
             int perm[32]; for (int i = 0; i < n; i++) perm[i] = i;
             rng_shuffle(&r, perm, n);
             switch (op) {
@@ -589,6 +595,7 @@ static void run_history_ops(int hidx, int len)
                 int drop = op == O_DECODE_OK || op == O_DECODE_DUP ? (int)rng_below(&r, (uint32_t)tol + 1) : op == O_DECODE_FEW ? n - (k ? (int)rng_below(&r, (uint32_t)k) : 0) : op == O_DECODE_UNRECOVERABLE ? tol + 1 + (int)rng_below(&r, (uint32_t)(n - tol)) : (int)rng_below(&r, 2);
                 if (drop > n) drop = n;
                 for (int i = drop; i < n; i++) lst[cnt++] = (char *)L->s.frag[perm[i]];
+                MISALIGN_SOME();
                 if (op == O_DECODE_DUP && cnt) { lst[cnt] = lst[rng_below(&r, (uint32_t)cnt)]; cnt++; lst[cnt] = lst[0]; cnt++; }
                 if ((op == O_DECODE_BADHDR || op == O_DECODE_RESEALED) && cnt) {
                     int w = (int)rng_below(&r, (uint32_t)cnt);
@@ -612,6 +619,7 @@ resealed_done: ;
                 if (drop > n) drop = n;
                 if (tol == 0) drop = 0;
                 for (int i = drop; i < n; i++) lst[cnt++] = (char *)L->s.frag[perm[i]];
+                MISALIGN_SOME();
                 int dest = op == O_RECON_BADDEST ? (rng_below(&r, 2) ? n + (int)rng_below(&r, 40) : -1 - (int)rng_below(&r, 40)) : perm[0];
                 char *o = malloc(L->s.flen ? L->s.flen : 1);
                 static char *dummy[1];
@@ -649,6 +657,8 @@ resealed_done: ;
             } break;
             }
             for (int i = 0; i < ntmp; i++) free(tmp[i]);
+            for (int i = 0; i < nmis; i++) free(misb[i]);
+#undef MISALIGN_SOME
         }
         mon_count("evaluations", 1); mon_count("history_steps", 1);
         if (expect_zero) q_zero(&q, "C16", what);
@@ -687,13 +697,22 @@ static void run_leaks_systematic(void)
                 if (mon_case("%s|systematic|E=%s", ck, em)) {
                     qp_t q; q_begin(&q);
                     char *lst[64]; int cnt = 0;
-                    for (int i = 0; i < n; i++) if (!((er >> i) & 1)) lst[cnt++] = (char *)L.s.frag[i];
+                    void *misb[64]; int nmis = 0;
+                    for (int i = 0; i < n; i++) if (!((er >> i) & 1)) {
+                        lst[cnt] = (char *)L.s.frag[i];
+                        /* every other erasure set: data and parity fragments at odd addresses (library-private aligned copies) */
+                        if ((nsets & 1) && ((i + nsets / 2) % 3 != 0)) { void *b_ = NULL; if (posix_memalign(&b_, 16, L.s.flen + 16)) abort(); int o_ = 1 + (i * 5 + nsets) % 15;
+                            memcpy((char *)b_ + o_, L.s.frag[i], L.s.flen); lst[cnt] = (char *)b_ + o_; misb[nmis++] = b_; }
+                        cnt++;
+                    }
+                    if (nmis) mon_count("systematic_sets_with_misaligned_fragments", 1);
                     char *out = NULL; uint64_t ol = 0;
                     int rc = liberasurecode_decode(L.desc, lst, cnt, L.s.flen, sz & 1, &out, &ol);
                     if (rc == 0) liberasurecode_decode_cleanup(L.desc, out);
                     char *o = malloc(L.s.flen);
                     for (int i = 0; i < sz; i++) liberasurecode_reconstruct_fragment(L.desc, lst, cnt, L.s.flen, e[i], o);
                     free(o);
+                    for (int i = 0; i < nmis; i++) free(misb[i]);
                     mon_count("evaluations", 1 + sz); mon_count("systematic_sets", 1);
                     q_zero(&q, "C16", "decode+cleanup and reconstruct of an erasure set within tolerance");
                     mon_distinct("nontrivial", mon_hash_u64(er, mon_hash_str(ck, 161)));
@@ -973,7 +992,7 @@ static int run_script(const cfg_t *c, const sstep_t *sc, int ns, const char *wha
         if (desc <= 0) { mon_viol("C17", "create-after-failed-init", "%s: create after a failed init returned %d", what, desc); return 0; }
     } else if (desc <= 0) { mon_viol("C17", "create-failed", "%s: create returned %d without an injected failure", what, desc); return 0; }
     int n = c->k + c->m, k = c->k;
-    uint32_t full = (1u << n) - 1;
+    uint32_t full = n >= 32 ? 0xffffffffu : (1u << n) - 1;
     uint64_t len = (uint64_t)k * 41 + 3;
     uint8_t *data = malloc(len); rng_t r; rng_seed(&r, MO.seed, 0x17000); rng_fill(&r, data, len);
     stripe_t S; memset(&S, 0, sizeof S);
@@ -1029,7 +1048,11 @@ static void run_faults(void)
     ledger_refresh();
     static const cfg_t pool[] = { { EC_BACKEND_LIBERASURECODE_RS_VAND, 4, 2, 2, 0, CHKSUM_CRC32 }, { EC_BACKEND_FLAT_XOR_HD, 10, 5, 3, 0, CHKSUM_NONE }, { EC_BACKEND_FLAT_XOR_HD, 6, 6, 4, 0, CHKSUM_CRC32 },
                                   { EC_BACKEND_NULL, 4, 2, 2, 0, CHKSUM_CRC32 }, { EC_BACKEND_ISA_L_RS_VAND, 4, 2, 2, 0, CHKSUM_CRC32 }, { EC_BACKEND_ISA_L_RS_CAUCHY, 5, 3, 3, 0, CHKSUM_NONE },
-                                  { EC_BACKEND_LIBERASURECODE_RS_VAND, 10, 4, 4, 0, CHKSUM_NONE } };
+                                  { EC_BACKEND_LIBERASURECODE_RS_VAND, 10, 4, 4, 0, CHKSUM_NONE },
+                                  /* more parity than data, k = 1, k = m, widest stripe: loops over k used where m is meant (and vice versa) */
+                                  { EC_BACKEND_LIBERASURECODE_RS_VAND, 2, 4, 4, 0, CHKSUM_CRC32 }, { EC_BACKEND_LIBERASURECODE_RS_VAND, 1, 3, 3, 0, CHKSUM_NONE }, { EC_BACKEND_NULL, 3, 7, 7, 0, CHKSUM_NONE },
+                                  { EC_BACKEND_ISA_L_RS_CAUCHY, 2, 5, 5, 0, CHKSUM_CRC32 }, { EC_BACKEND_LIBERASURECODE_RS_VAND, 3, 3, 3, 0, CHKSUM_CRC32 }, { EC_BACKEND_LIBERASURECODE_RS_VAND, 12, 20, 20, 0, CHKSUM_NONE },
+                                  { EC_BACKEND_FLAT_XOR_HD, 5, 5, 3, 0, CHKSUM_CRC32 } };
     for (size_t pi = 0; pi < sizeof pool / sizeof pool[0]; pi++) {
         cfg_t c = pool[pi];
         if (!isal_ok && (c.be == EC_BACKEND_ISA_L_RS_VAND || c.be == EC_BACKEND_ISA_L_RS_CAUCHY)) continue;
